@@ -1,3 +1,24 @@
-/- C03 — the specification encoder and, later, theorems relating the reader model to it -/
-import E57.Spec.Encoder
-import E57.Model.Reader
+/-
+C03 — the reader decodes any legal layout.
+
+Property theorems (proved in `E57/Proofs/LayoutRead.lean`, re-exported into `E57`):
+
+ * `C03_reader_decodes_any_layout`  for every record type list, point list and packet list that is
+   `Legal` (every byte stream cut into data packets in ANY way — empty chunks, values straddling
+   packets, unequal cuts per attribute — with index and ignored packets anywhere, total packet
+   length ≤ 64 KiB) and every file context `FileCtx` (the section of the specification encoder
+   `Spec.encodeSection` lies at any 4-aligned logical offset `s` of any paged file with valid page
+   checksums; the section may straddle page boundaries anywhere), the reader model's
+   `QR.new` + raw iterator return exactly the encoded points, in order, then `done`.
+ * `C03_kth_item`     the k-th call returns point k; call number `points.length` returns `done`.
+ * `C03_roundtrip`    the same with the file context constructed (no file hypotheses left).
+ * `fileCtx_exists`   the hypotheses are satisfiable for every section and offset (non-vacuity);
+   two concrete `Legal` instances are checked by `decide` in the proof file.
+ * byte-level lemmas: `readPacketHeader_data/index/ignored`, `readCvHeader_section`, `QR_new_at`,
+   `advance_data/index/ignored/step`, `queue_inv`.
+
+What is NOT covered by these theorems (and stays differential, engine `layout`): the XML side of a
+layout (lexical variants, element order, omitted optional attributes) — parsing XML text is
+roxmltree's job and outside the model; blobs in other places (C06); images.
+-/
+import E57.Proofs.LayoutRead
